@@ -143,6 +143,16 @@ def build_harness():
     return rc == 0, out
 
 
+def harness_race_exe():
+    return os.path.join(BUILD, "bbverif_race")
+
+
+def build_harness_race():
+    """the same harness with the Go race detector compiled in (C03); go.mod is the one build_harness wrote"""
+    rc, out = sh("go build -race -tags verif -o %s ." % harness_race_exe(), cwd=os.path.join(ROOT, "harness"), timeout=900)
+    return rc == 0, out
+
+
 def build_oracle(force=False):
     """Extraction (ExtrOcamlBasic only) + dune build of the oracle. Rebuilt when any model file is newer."""
     od = os.path.join(BUILD, "oracle")
